@@ -7,7 +7,14 @@ def run(ctx):
     run_durable(ctx,
                 model=["s01_step_wait_retry", "s03_child_wfc", "s04_cb_invoke", "s07_nested_children", "s08_large_child"],
                 programs=["s01_step_wait_retry", "s03_child_wfc", "s04_cb_invoke", "s05_wfcb_childfail_wfcfail", "s07_nested_children",
-                          "s08_large_child", "s12_wfc_three_polls", "s13_child_raises_caught", "s17_child_wfc_inside"],
+                          "s08_large_child", "s12_wfc_three_polls", "s13_child_raises_caught", "s17_child_wfc_inside",
+                          # map / parallel: a branch that parks on a timer and is resumed inside the same invocation (a sibling is
+                          # still running) re-traverses its completed operations; re-invocation after the whole call suspended
+                          {"nodes": [{"k": "par", "branches": [[{"k": "step"}, {"k": "wait", "s": 1}, {"k": "step"}],
+                                                               [{"k": "step", "dur": 3}]]}, {"k": "step"}]},
+                          {"nodes": [{"k": "map", "maxc": 2, "branches": [[{"k": "step"}, {"k": "step", "fail": 1, "max": 2, "delay": 1}],
+                                                                          [{"k": "step", "dur": 2.5}, {"k": "wait", "s": 1}, {"k": "step"}],
+                                                                          [{"k": "step"}]]}, {"k": "wait"}, {"k": "step"}]}],
                 oracle_fns=[oracles.c01],
                 scen_kw={"crash": 0.6, "paging": 0.7},
                 sweep=["s03_child_wfc"],
